@@ -29,7 +29,9 @@ try:
         for cand in ("demo", "demo_A", "demo_B", "demoA", "demoB"):
             if os.path.exists(os.path.join(d, cand)): exe = os.path.join(d, cand)
         if rc != 0 or not exe: return None, "build failed: " + out[-500:]
-        rc, out = sh(exe + " " + wt, cwd=d, timeout=600)
+        rc, out = sh(exe, cwd=d, timeout=900)
+        if rc == 2:   # demos that take the tree as argv[1] report a harness problem (exit 2) without it
+            rc, out = sh(exe + " " + wt, cwd=d, timeout=900)
         return rc, out[-600:]
     rc, out = build(); res["baseline_build_rc"] = rc
     rc, out = demo(); res["baseline_demo_rc"] = rc; res["baseline_demo_tail"] = out[-300:]
